@@ -14,10 +14,11 @@ package signaller
 //@ ensures  result.Unix() <= timestamp + (interval * (dpStart + dpOffset - 1)) / 100
 //@ ensures  result.Unix() <  timestamp + interval
 
-// float64 deviation test: body not verified here (floating point); named by an abstract predicate.
-//@ spec deviated(bp Int, old Int, new Int) Bool uninterpreted
+// C20: "promptly when the price moves by at least the feed's deviation": the deviation test is exact over the integers,
+// floor(|new - old| * 10000 / old) >= deviation, for every uint64 price (F4: the float64 version misjudged moves of
+// exactly the threshold for prices above 2^53).
+//@ spec deviated(bp Int, o Int, n Int) Bool = o == 0 ? n != 0 : bp <= (abs(n - o) * 10000) / o
 //@ func isDeviated
-//@ trusted
 //@ pure
 //@ ensures result == deviated(deviationBasisPoint, oldPrice, newPrice)
 
@@ -40,6 +41,23 @@ package signaller
 //@ extern time.Sleep(d) ()
 //@ modifies Refreshed
 //@ ensures !Refreshed
+
+// C20: the feed table is REPLACED by what the chain answered, not merged into: after a successful refresh every tracked
+// signal is one of the chain's current feeds (a signal the chain dropped must disappear here too - submitting it makes
+// the chain reject the whole message, the signals batched with it included). ChainFeeds: what the chain answered last.
+//@ ghost ChainFeeds []types.FeedWithDeviation
+//@ func (q FeedQuerier) QueryCurrentFeeds
+//@ trusted
+//@ modifies ChainFeeds
+//@ ensures err == nil ==> result.CurrentFeeds.Feeds == ChainFeeds
+// the map built from a slice holds only elements of the slice
+//@ func sliceToMap
+//@ pure_funcvalues
+//@ ensures forall k K :: has(result, k) ==> (exists i :: 0 <= i && i < len(slice) && result[k] == slice[i])
+//@ loop 0: invariant forall k K :: has(resultMap, k) ==> (exists i :: 0 <= i && i < #i && resultMap[k] == slice[i])
+//@ func (s *Signaller) updateFeedMap
+//@ modifies s, ChainFeeds
+//@ ensures result ==> (forall k Str :: has(s.signalIDToFeed, k) ==> (exists i :: 0 <= i && i < len(ChainFeeds) && s.signalIDToFeed[k] == ChainFeeds[i]))
 
 // chain queries (gRPC): assumed
 //@ func (q FeedQuerier) QueryValidValidator
